@@ -274,3 +274,52 @@ theorem span_triple_ok (a c : Str) (b e : DateTime) (sb se : Str)
   simpa [triple] using key
 
 end RTV.DtPeriod
+
+namespace RTV.DtPeriod
+open RTV.Cal RTV.DateUtils RTV.WF RTV.Periods
+
+theorem no_comma_unit (n u : Nat) (hu : u ≠ 44) : ∀ c ∈ (natStr n ++ [u] : Str), c ≠ 44 := by
+  intro c hc; simp only [List.mem_append, List.mem_singleton] at hc
+  rcases hc with hc | hc
+  · have := natStr_digits _ c hc; simp [isDigit] at this; omega
+  · omega
+
+/-- two full `YYYY-MM-DDTHH:MM:SS` points and a single-unit duration `PT<n><U>`: consistent exactly when the points are
+`n` units apart -/
+theorem points_triple (b e : DateTime) (hb : proper b) (he : proper e) (n k u : Nat)
+    (hu : (if u = 72 then some 3600 else if u = 77 then some 60 else if u = 83 then some 1 else none) = some k) :
+    tripleOK (triple (luisPoint b) (luisPoint e) ([80, 84] ++ natStr n ++ [u])) (some (fmtDT b)) (some (fmtDT e)) =
+      decide (val e - val b = ((n * k : Nat) : Int)) := by
+  have lb := luisPoint_parse b hb
+  have le := luisPoint_parse e he
+  have pt := ptSeconds_single n k u hu
+  have hu44 : u ≠ 44 := by intro h; subst h; simp at hu
+  have hr := no_comma_unit n u hu44
+  have hshape : triple (luisPoint b) (luisPoint e) ([80, 84] ++ natStr n ++ [u]) =
+      [40] ++ luisPoint b ++ [44] ++ luisPoint e ++ [44] ++ (80 :: 84 :: (natStr n ++ [u])) ++ [41] := by simp [triple]
+  rw [hshape]
+  have hd : diffSeconds (some b.date, some b.secs) (some e.date, some e.secs) = some (val e - val b) := by
+    unfold diffSeconds val; simp only; congr 1; omega
+  by_cases c : val e - val b = ((n * k : Nat) : Int)
+  · rw [decide_eq_true c]
+    exact tripleOK_PT _ _ _ _ _ _ _ lb.2.2 le.2.2 hr lb.1 le.1 lb.2.1 le.2.1 (n * k) pt (by simp) (by rw [hd, c])
+  · rw [decide_eq_false c]
+    exact tripleOK_PT_wrong _ _ _ _ _ _ _ lb.2.2 le.2.2 hr lb.1 le.1 (n * k) pt _ hd c
+
+theorem fmtPoint_dt (d : Date) (s : Nat) : fmtPoint (some d, some s) = some (fmtDT ⟨d, s⟩) := by
+  unfold fmtPoint fmtDT hourOf minuteOf secondOf
+  have e : s / 60 % 60 = s % 3600 / 60 := by omega
+  simp only [e]
+
+/-- `timex.split('T')[0]` of a date-time TIMEX is its date -/
+theorem splitT_formatDate (d : Date) (tt : Str) : splitT (formatDate d ++ 84 :: tt) = formatDate d := by
+  unfold splitT
+  have h : ∀ c ∈ formatDate d, (decide (c ≠ 84)) = true := by
+    intro c hc
+    simp [formatDate, pad4, pad2] at hc
+    simp only [ne_eq, decide_not, Bool.not_eq_eq_eq_not, Bool.not_true, decide_eq_false_iff_not]
+    omega
+  rw [List.takeWhile_append_of_pos h]
+  simp
+
+end RTV.DtPeriod
